@@ -136,6 +136,25 @@ def build_ops(K, rng, slot=0, version="1.2", permute=True, iid_base=0):
         o = {"op": "img_add", "variant": variant, "arch": arch, "iid": iid_base + i}
         o.update(sl)
         ops.append(o)
+    if K["imgs"] and rng.random() < 0.15:
+        # an image object is filed while still blank and filled in afterwards (its place in the cell must not depend
+        # on what it held at the moment of add())
+        late = {"op": "img_new", "iid": iid_base + 900, "attrs": {}}
+        late.update(sl)
+        ops.append(late)
+        v, a = (cells[0][0], cells[0][1]) if cells else ("Server", "x86_64")
+        o = {"op": "img_add", "variant": v, "arch": a, "iid": iid_base + 900}
+        o.update(sl)
+        ops.append(o)
+        src = dict(K["imgs"][0])
+        src["path"] = src["path"] + ".late"
+        src["subvariant"] = src["subvariant"] + "-late"
+        fields = list(src.items())
+        rng.shuffle(fields)
+        for f, val in fields:
+            o = {"op": "img_set", "iid": iid_base + 900, "field": f, "value": val}
+            o.update(sl)
+            ops.append(o)
     return ops
 
 
